@@ -51,7 +51,9 @@ Static analysis (MIR/SSA). Decided clauses: lookup, the lookup inside delete, an
 the EXACT / EXACT / INSERT decision tables [DESCENT]; delete reaches the removal only under 'found' and no link is
 dereferenced unguarded on the delete path [NULL]; every payload write is a whole-entity assignment: insertion stores its
 argument into the fresh slot, the removal overwrites the removed slot with the whole entity of exactly one other slot,
-which is the slot it releases; no &mut to a stored entity escapes except through value_by_index_mut; is_empty is
+which is the slot it releases, and that entity is read before anything overwrites it; every path through insert stores
+the payload into the arena and delete runs the removal on exactly the index its search found, on every path on which it
+found one; no &mut to a stored entity escapes except through value_by_index_mut; is_empty is
 root == EMPTY_REF and root is written only by the constructor, the root insert, replace_parents_child, the removal and
 clear [ENTITY, POOL]; clear returns every slot and only the pool's recognised operations touch its vectors [POOL].""",
      ["C02"],
@@ -194,12 +196,14 @@ exact-size iterator of its buffer [ALLOC].""",
 prop('C11', """
 Static analysis (MIR/SSA, call graph). Decided clauses: per arena, only the removal transaction and clear release slots,
 only new and the linking inserts allocate, and the pool's vectors are mutated only by the pool's own functions; the
-removal releases exactly one slot on every path (one call site, dominating every return, outside any loop, nothing
-after it), namely the removed index or, when a payload was moved in from the in-order successor, that successor's
-slot; a slot taken from the allocator has all its fields initialised and is linked as root or as a child of the node
+removal releases exactly one slot on every path (a path count over the function and its helpers, `clear` counting as any
+number; pass-through wrappers allowed; outside any loop, nothing after it), namely the removed index or, when a payload
+was moved in from the in-order successor, that successor's slot; a slot taken from the allocator has all its fields initialised and is linked as root or as a child of the node
 recorded as its parent in every caller; the arena grows only under 'free list is empty', by the free list's capacity,
 with buffer and free list extended by the same index range; clear releases the root, empties it, then pass by pass
-exactly the non-empty children of the slots released in the previous pass (counter tied to releases) [POOL]; no
+exactly the non-empty children of the slots released in the previous pass (counter reset per pass, tied to releases, the
+passes end when a pass released nothing; or one cursor over the tail of the free list), and the release function leaves the
+links of a released slot intact, which that scan relies on [POOL]; no
 computed slot number ever reaches the removal or an accessor [PROVENANCE]; no index is used after the removal that
 may have freed it [STALE]. Not decided: the storage bound itself (a stated consequence of grow-only-when-empty, by at
 most the current size).""",
